@@ -376,12 +376,12 @@ Inductive classification := Conforms (k : kind) | Nonconforming | Unknown.
 Record consts := mkConsts { c_prep_actions : Z; c_min : Z; c_max : Z }.
 Definition zip318_consts : consts := mkConsts PREP_TX_ACTIONS MAX_RESIDUAL_VALUE DENOM_CAP.
 
-(** [while n.is_multiple_of(10) { n /= 10 }]; the loop does not terminate on 0 (excluded by the
-    positive lower bound). Fuel 64 exceeds the number of decimal digits of any u64. *)
+(** [while n != 0 && n.is_multiple_of(10) { n /= 10 }]. Fuel 64 exceeds the number of decimal
+    digits of any u64 (see [strip_radix_opt] below for the version with the exit made visible). *)
 Fixpoint strip_radix (fuel : nat) (n : Z) : Z :=
   match fuel with
   | O => n
-  | S f => if n mod DENOMINATION_RADIX =? 0 then strip_radix f (n / DENOMINATION_RADIX) else n
+  | S f => if negb (n =? 0) && (n mod DENOMINATION_RADIX =? 0) then strip_radix f (n / DENOMINATION_RADIX) else n
   end.
 
 Definition is_canonical_within (value lo hi : Z) : bool :=
@@ -390,12 +390,11 @@ Definition is_canonical_within (value lo hi : Z) : bool :=
     let n := strip_radix 64 value in
     (n =? 5) || (n =? 2) || (n =? 1).
 
-(** The same loop with non-termination visible: [None] = the loop is still running after [fuel]
-    iterations. On 0 it never exits (0 is a multiple of the radix and 0 / radix = 0). *)
+(** The same loop with the exit made visible: [None] = still running after [fuel] iterations. *)
 Fixpoint strip_radix_opt (fuel : nat) (n : Z) : option Z :=
   match fuel with
   | O => None
-  | S f => if n mod DENOMINATION_RADIX =? 0 then strip_radix_opt f (n / DENOMINATION_RADIX) else Some n
+  | S f => if negb (n =? 0) && (n mod DENOMINATION_RADIX =? 0) then strip_radix_opt f (n / DENOMINATION_RADIX) else Some n
   end.
 
 (** [None] = does not terminate *)
